@@ -320,9 +320,10 @@ def rule_add_dispatch(chk):
     oksp = False
     for t in cfg.live:
         if t.kind == "test" and isinstance(t.exprs[0], ast.Compare) and isinstance(t.exprs[0].ops[0], ast.Eq):
-            r_ = t.exprs[0].comparators[0]
-            if isinstance(r_, ast.List) and len(r_.elts) == 1 and isinstance(r_.elts[0], ast.Constant) and r_.elts[0].value == 1 and "task_level" in unparse(t.exprs[0].left):
-                oksp = True
+            for a_, b_ in ((t.exprs[0].left, t.exprs[0].comparators[0]), (t.exprs[0].comparators[0], t.exprs[0].left)):
+                okc, cv = ctx.try_fold(f, b_)
+                if okc and isinstance(cv, (list, tuple)) and list(cv) == [1] and "task_level" in unparse(X.inline(f, a_)):
+                    oksp = True
     chk.req(oksp, "C09.dispatch", "Task.add:context-less-message-only-at-level-[1]", chk.where(f), good="a message is a whole task only when its level is [1]",
             fail="Task.add no longer restricts the single-message task to level [1]")
     ins = ctx.calls_to(f, ia) + ctx.calls_to(f, enp)
